@@ -260,7 +260,7 @@ func (b *c20Build) runShards(r *core.Rec, n int, mk func(shard int) []string) {
 			}
 			cmd.Env = append(os.Environ(), "C20_SYNCFREE="+sf, "C20_FRESH="+b.fresh, "C20_FRESHVAR="+b.freshVar, "GOMAXPROCS=1", "C20_STEP_BUDGET="+strconv.FormatInt(b.stepBudget, 10))
 			var stderr bytes.Buffer
-			cmd.Stderr = &stderr
+			cmd.Stderr = &beatWriter{buf: &stderr, r: r}
 			outb, err := cmd.Output()
 			mu.Lock()
 			defer mu.Unlock()
@@ -275,6 +275,25 @@ func (b *c20Build) runShards(r *core.Rec, n int, mk func(shard int) []string) {
 		}(s)
 	}
 	wg.Wait()
+}
+
+// beatWriter collects a harness process's stderr; its "HB" heart-beat lines count
+// as progress for the driver's watchdog (the exploration behind them is bounded
+// by a step budget) and are not kept.
+type beatWriter struct {
+	buf *bytes.Buffer
+	r   *core.Rec
+}
+
+func (w *beatWriter) Write(p []byte) (int, error) {
+	for _, line := range bytes.SplitAfter(p, []byte("\n")) {
+		if bytes.Equal(bytes.TrimSpace(line), []byte("HB")) {
+			w.r.Progress.Add(1)
+			continue
+		}
+		w.buf.Write(line)
+	}
+	return len(p), nil
 }
 
 func lastLine(b []byte) []byte {
@@ -344,8 +363,14 @@ func c20Run(c *core.Ctx) {
 	}
 	r.Count("package_level_variables_monitored", int64(nvars))
 	r.Note(fmt.Sprintf("instrumented %d files of packages %v with %d scheduling points; build %.0fs", g.Files, g.Packages, g.Points, time.Since(start).Seconds()))
+	if len(g.TypeErrors) > 0 {
+		r.Incomplete = append(r.Incomplete, "type-checking the library for the map-order seam reported: "+strings.Join(g.TypeErrors, "; "))
+	}
+	if len(g.MapRangesFree) > 0 {
+		r.Note("range-over-map sites NOT under harness control (iteration order stays runtime-randomised; covered by repetition only): " + strings.Join(g.MapRangesFree, ", "))
+	}
 	if len(g.MapRanges) > 0 {
-		r.Note("range-over-map sites (iteration order is runtime-randomised; covered by repetition only): " + strings.Join(g.MapRanges, ", "))
+		r.Note("range-over-map sites put under harness control (found by type-checking; iteration order = verifhook.MapMode, every call that reaches one is re-run under 6 orders, all 3! orders for maps of <= 3 keys): " + strings.Join(g.MapRanges, ", "))
 	}
 	syncFree := len(g.SyncUses) == 0
 	b.syncFree = syncFree
